@@ -40,7 +40,8 @@ Line(c, pk, sf, nm) ==
                      ELSE <<PrefixChar(pk), A(", ")>>                                     \* identifier parameter
         pre_str == IF pk = "none" THEN <<>> ELSE <<A("\""), PrefixChar(pk), A("\", ")>>   \* "x", 'fx'
         tok == A("fx")
-        name == IF nm = "ascii" THEN A("fx_n") ELSE P("f<E2>_n", 5, 4)
+        \* "sub_def" / "sub_async": the fixture's name also occurs INSIDE the keywords in front of it (`def e`, `async def sync`)
+        name == CASE nm = "ascii" -> A("fx_n") [] nm = "nonascii" -> P("f<E2>_n", 5, 4) [] nm = "sub_def" -> A("e") [] nm = "sub_async" -> A("sync")
     IN  CASE c = "test_param"    -> [before |-> <<A("def test_x(")>> \o pre_param, open |-> <<>>, tok |-> tok, close |-> <<>>, after |-> <<A("):")>>]
           [] c = "fixture_param" -> [before |-> <<A("def w_fix(")>> \o pre_param, open |-> <<>>, tok |-> tok, close |-> <<>>, after |-> <<A("):")>>]
           [] c \in {"usefix", "usefix_class"} ->
@@ -86,7 +87,7 @@ AllPosDevs == {"byte_columns", "quote_strip_pm1", "indirect_whole_string"}
 DefConstructs == {"defname", "defname_async", "defname_tab", "defname_class", "defname_wide", "defname_async_wide"}
 VARIABLES c, pk, sf, nm
 vars == <<c, pk, sf, nm>>
-Init == /\ c \in Constructs /\ pk \in Prefixes /\ sf \in StrForms /\ nm \in {"ascii", "nonascii"}
+Init == /\ c \in Constructs /\ pk \in Prefixes /\ sf \in StrForms /\ nm \in {"ascii", "nonascii", "sub_def", "sub_async"}
         /\ (~IsString(c) => sf = "dq")
         /\ (c \notin DefConstructs => nm = "ascii")
         /\ (c \in DefConstructs => pk = "none")
